@@ -10,6 +10,8 @@
 //!   (`Queue::poll_pop`: priority, control, non-priority) and encodes every `RpcOut` through
 //!   `RpcOut::into_protobuf` + the real `GossipsubCodec` encoder (the handler's path), returning
 //!   length-prefixed wire frames.
+//! * `verif_fill_control_queue(peer)` — the environment fault "stalled connection, control queue
+//!   full", produced through the production `Queue::try_push`.
 //! * `verif_decode(config, bytes)` — the real `GossipsubCodec` decoder (what the handler's
 //!   inbound `Framed` does): wire bytes -> `HandlerEvent`s.
 
@@ -157,6 +159,30 @@ where
     /// Number of `ToSwarm` events waiting in the behaviour's own queue.
     pub fn verif_pending_events(&self) -> usize {
         self.events.len()
+    }
+
+    /// Environment fault "the peer's connection is stalled and its send queue is full": fill the
+    /// bounded control queue (GRAFT / PRUNE / IDONTWANT, `CONTROL_MSGS_LIMIT` entries) of `peer`
+    /// through the production `Queue::try_push` with GRAFTs for a topic nobody uses, until the
+    /// queue refuses. Returns the number of entries pushed. From then on the behaviour's own
+    /// `send_message` fails for control messages to this peer, exactly as with a handler that
+    /// never drains.
+    pub fn verif_fill_control_queue(&mut self, peer: &PeerId) -> usize {
+        let Some(details) = self.connected_peers.get_mut(peer) else {
+            return 0;
+        };
+        let topic = TopicHash::from_raw("verif-stalled-backlog");
+        let mut n = 0;
+        while details
+            .messages
+            .try_push(crate::types::RpcOut::Graft(crate::types::Graft {
+                topic_hash: topic.clone(),
+            }))
+            .is_ok()
+        {
+            n += 1;
+        }
+        n
     }
 
     /// Pop everything queued for `peer` in the order the connection handler would and return the
